@@ -66,6 +66,9 @@ def run_tlc(module, cfg, expect_violation=None, workers=4, timeout=900, extra_cf
     """Returns dict(states, transitions, wall, violated, out). A violation that is not expected is a spec problem."""
     res = vlib.tlc(SPECDIR, module, cfg, workers=workers, timeout=timeout, copy_extra=[extra_cfg] if extra_cfg else None, **kw)
     try:
+        import re
+        res['violated'] = sorted(set([x for x in res['violated'] if x != '?'] +
+                                     re.findall(r'Error: Temporal property ([A-Za-z0-9_]+) was violated', res['out']))) or res['violated']
         if expect_violation is None and res['violated']:
             raise vlib.Infra('TLC reports %s violated on the specification itself (%s / %s): a specification problem, not a verdict\n%s'
                              % (res['violated'], module, cfg, res['out'][-2500:]))
@@ -111,7 +114,7 @@ def cex_behaviour(out):
 def model_check(tier):
     jobs = [('MC_WriterLifecycle.tla', 'MC_WriterLifecycle_life_i.cfg', None),
             ('MC_WriterLifecycle.tla', 'MC_WriterLifecycle_sel_i.cfg', None),
-            ('MC_WriterLifecycle.tla', 'MC_WriterLifecycle_life_q.cfg', None),
+            ('MC_WriterLifecycle.tla', 'MC_WriterLifecycle_life_q1.cfg', None),
             ('MC_WriterLifecycle.tla', 'MC_WriterLifecycle_route_i.cfg', None),
             ('MC_WriterLifecycle.tla', 'MC_WriterLifecycle_live_i.cfg', None),
             ('MC_WriterLifecycle.tla', 'MC_WriterLifecycle_live_q.cfg', 'EveryAcceptedCompletes'),
@@ -120,6 +123,7 @@ def model_check(tier):
             ('MC_WriterLifecycleWD.tla', 'MC_WriterLifecycleWD_qcex.cfg', 'WdNoStaleSkipped')]
     if tier != 'quick':
         jobs += [('MC_WriterLifecycle.tla', 'MC_WriterLifecycle_t2_i.cfg', None),
+                 ('MC_WriterLifecycle.tla', 'MC_WriterLifecycle_life_q.cfg', None),
                  ('MC_WriterLifecycleWD.tla', 'MC_WriterLifecycleWD_i2.cfg', None),
                  ('MC_WriterLifecycleWD.tla', 'MC_WriterLifecycleWD_q2.cfg', None)]
     out = []
@@ -196,12 +200,13 @@ def run_cases(binp, cases, seed):
                 else:
                     sig = '%s|%s' % (prop, dsn_class(c['d']))
                 seen.setdefault(sig, []).append({'case': route[o['id']], 'layer': layer, 'observed': obs, 'landed': o.get('landed'), 'http_status': o.get('code'),
-                                                 'property': prop})
+                                                 'property': prop, 'nbroken': len(broken)})
         else:
             sig = 'cases|route|%s|unexplained' % layer
             seen.setdefault(sig, []).append({'case': route[o['id']], 'layer': layer, 'observed': o, 'model_as_is': exp_q,
                                              'model_demanded': intended.get((c['d'], c['h'], layer))})
     for sig, items in sorted(seen.items()):
+        items.sort(key=lambda it: (it.get('nbroken', 9), it['layer'] != 'http', json.dumps(it['case'], sort_keys=True)))
         rp = vlib.save_replay(PID, 'cases_' + sig.replace('|', '_'), {'kind': 'rule cases on the real registry / services', 'signature': sig, 'cases': items[:12]})
         it = items[0]
         if sig.startswith('cases|'):
@@ -237,6 +242,7 @@ def run_cases(binp, cases, seed):
         else:
             wseen.setdefault('cases|wd|unexplained', []).append({'stale_services': c['stale'], 'observed': o, 'model_as_is': c['verdicts'], 'demanded': c['demanded']})
     for sig, items in sorted(wseen.items()):
+        items.sort(key=lambda it: (len(it.get('stale_services', [])), json.dumps(it.get('stale_services'))))
         rp = vlib.save_replay(PID, 'cases_' + sig.replace('|', '_'), {'kind': 'watchdog.Check cases on real services', 'signature': sig, 'cases': items})
         it = items[0]
         msg = ('watchdog.Check with stale service(s) %s (workers %s past 2*WriteTimeout+5 s): verdicts %s over 60 calls, demanded: error every time '
@@ -250,11 +256,11 @@ def run_cases(binp, cases, seed):
 
 
 # ------------------------------------------------------------------------------------------------ replay
-def replay(binp, behs, seed, par=16):
+def replay(binp, behs, seed, par=16, consts=None):
     sd = vlib.scratch('x03rep')
     try:
         inp, outp = os.path.join(sd, 'in.json'), os.path.join(sd, 'out.json')
-        json.dump({'consts': {'Nodes': NODES, 'AsyncNodes': ASYNC, 'Kinds': ['spl'], 'ParallelNum': W, 'RG': RG}, 'behaviours': behs}, open(inp, 'w'))
+        json.dump({'consts': consts or {'Nodes': NODES, 'AsyncNodes': ASYNC, 'Kinds': ['spl'], 'ParallelNum': W, 'RG': RG}, 'behaviours': behs}, open(inp, 'w'))
         r = vlib.run_cmd([binp, 'replay', '-in', inp, '-out', outp, '-seed', str(seed), '-par', str(par)], timeout=3000)
         if r.returncode == 2 or not os.path.exists(outp):
             raise vlib.Infra('x03 replay failed: ' + (r.stdout + r.stderr)[-3000:])
@@ -265,13 +271,11 @@ def replay(binp, behs, seed, par=16):
 
 def probe_orphan(binp, seed):
     """TLC counterexample of NoOrphan on the replay spec with QOrphan on; TRUE if the real code follows it to the end."""
-    q = {k: True for k in QUIRKS}
-    cfg = write_tmp('MC_WriterLifecycleReplay_cex.cfg', 'SPECIFICATION ReplaySpec\n' + cfg_common(q) + 'INVARIANT NoOrphan\nCHECK_DEADLOCK FALSE\n')
-    r = run_tlc('MC_WriterLifecycleReplay.tla', 'MC_WriterLifecycleReplay_cex.cfg', 'NoOrphan', workers=4, timeout=600, extra_cfg=cfg)
+    r = run_tlc('MC_WriterLifecycleReplay.tla', 'MC_WriterLifecycleReplay_cex.cfg', 'NoOrphan', workers=4, timeout=600)
     beh = cex_behaviour(r['out'])
     if len(beh) < 4:
         raise vlib.Infra('counterexample too short: %r' % [s['action'] for s in beh])
-    out = replay(binp, [beh], seed, par=1)
+    out = replay(binp, [beh], seed, par=1, consts={'Nodes': ['n1'], 'AsyncNodes': [], 'Kinds': ['spl'], 'ParallelNum': 1, 'RG': 2})
     steps = [{'action': s['action'], 'args': s['args']} for s in beh[1:]]
     if not out.get('violations'):
         if out.get('orphaned_promises_observed', 0) < 1:
@@ -311,11 +315,28 @@ def traces(binp, q, tier, seed):
     chunks = 2 if tier == 'quick' else 10
     viols, stats = [], {'scenarios': 0, 'events': 0, 'requests': 0, 'orphans_recorded': 0, 'tlc_states': 0, 'accepted': 0, 'files': 0, 'event_kinds': {}}
     sample = []
-    for ch in range(chunks):
+    with cf.ThreadPoolExecutor(max_workers=4) as ex:
+        parts = list(ex.map(lambda ch: trace_chunk(binp, q, seed, ch, nscen // chunks), range(chunks)))
+    for v, st, sm in parts:
+        viols += v
+        sample = sample or sm
+        for k, x in st.items():
+            if isinstance(x, dict):
+                for kk, vv in x.items():
+                    stats[k][kk] = stats[k].get(kk, 0) + vv
+            else:
+                stats[k] += x
+    return viols, stats, sample
+
+
+def trace_chunk(binp, q, seed, ch, nscen):
+    viols, stats = [], {'scenarios': 0, 'events': 0, 'requests': 0, 'orphans_recorded': 0, 'tlc_states': 0, 'accepted': 0, 'files': 0, 'event_kinds': {}}
+    sample = []
+    for ch in [ch]:
         sd = vlib.scratch('x03tr')
         try:
             tp, mp = os.path.join(sd, 'trace.ndjson'), os.path.join(sd, 'meta.json')
-            r = vlib.run_cmd([binp, 'trace', '-out', tp, '-meta', mp, '-seed', str(seed * 100 + ch), '-scenarios', str(nscen // chunks)], timeout=600)
+            r = vlib.run_cmd([binp, 'trace', '-out', tp, '-meta', mp, '-seed', str(seed * 100 + ch), '-scenarios', str(nscen)], timeout=600)
             if r.returncode != 0 or not os.path.exists(mp):
                 raise vlib.Infra('x03 trace failed: ' + (r.stdout + r.stderr)[-3000:])
             meta = json.load(open(mp))
@@ -350,9 +371,6 @@ def traces(binp, q, tier, seed):
                 viols.append({'property': PID, 'signature': sig, 'replay': rp,
                               'msg': 'a recorded free-running execution of the registry / insert services is not a behaviour of WriterLifecycle (quirks %s): %s'
                                      % ([k for k in q if q[k]], json.dumps(detail)[:600])})
-            # the demanded property on the recorded runs: an orphaned promise is one
-            if meta['orphans'] and not q.get('QOrphan'):
-                raise vlib.Infra('orphans recorded although the probe says the quirk is off')
         finally:
             shutil.rmtree(sd, ignore_errors=True)
     return viols, stats, sample
@@ -387,27 +405,32 @@ def wd_plans(tier, seed):
                     robust = False
             if post['wdExited'] and not pre['wdExited']:
                 exit_tick = pre['now']
-        if not robust or b[-1]['state']['now'] < 11 and exit_tick < 0:
+        if not robust:
             continue
-        dur = (exit_tick + 6.5) if exit_tick >= 0 else 11.5 if len([e for e in events]) == 0 else min(16.5, max(11.5, events[-1]['t'] + 9))
-        if exit_tick < 0:
-            # the model must have been explored up to the end of the scenario
-            if b[-1]['state']['now'] + 0.5 < dur:
-                dur = b[-1]['state']['now'] + 0.5
-            if dur < 10.5:
-                continue
-        cls = (tuple(e['ev'] for e in events), exit_tick)
+        if exit_tick >= 0:
+            dur = exit_tick + 6.5
+        else:
+            if b[-1]['state']['now'] < 16:
+                continue       # (the behaviour was cut short)
+            dur = 11.5 if (not events or events[-1]['t'] <= 6.5) else 16.5
+        cls = (tuple(e['ev'] for e in events), exit_tick, tuple(e['t'] for e in events))
         classes.setdefault(cls, []).append({'events': events, 'exit_tick': exit_tick, 'duration': dur})
     want = 4 if tier == 'quick' else 10
-    keys = sorted(classes, key=lambda c: (c[1] < 0, len(c[0]), c[1]))
-    # both verdicts must be present
+    keys = sorted(classes, key=lambda c: (len(c[0]), c[1]))
+    exits = sorted([k for k in keys if k[1] >= 0], key=lambda c: (c[1], len(c[0])))
+    quiet = [k for k in keys if k[1] < 0 and len(k[0]) == 0]
+    back = [k for k in keys if k[1] < 0 and len(k[0]) > 0
+            and any(classes[k][0]['events'][x + 1]['t'] - classes[k][0]['events'][x]['t'] >= 2 for x in range(len(k[0]) - 1))]
     chosen = []
-    for pick in (lambda c: c[1] >= 0, lambda c: c[1] < 0 and len(c[0]) == 0, lambda c: c[1] < 0 and len(c[0]) > 0, lambda c: True):
-        for k in keys:
-            if pick(k) and k not in chosen and len(chosen) < want:
+
+    def rot(l):
+        return l[seed % len(l):] + l[:seed % len(l)] if l else l
+    early, late = rot([k for k in exits if k[1] <= 10]), rot([k for k in exits if k[1] > 10])
+    back = rot(back)
+    for group in (early[:1], quiet[:1], back[:1], late[:1], early[1:], back[1:], late[1:]):
+        for k in group:
+            if k not in chosen and len(chosen) < want:
                 chosen.append(k)
-                if pick is not None and len(chosen) in (1, 2, 3):
-                    break
     flav = ['idle', 'load', 'slow']
     for i, k in enumerate(chosen):
         p = dict(classes[k][seed % len(classes[k])])
